@@ -247,6 +247,7 @@ fn run_family(name: &str, inputs: &[String], fam: &mut BTreeMap<String, Json>, a
         let mut o = Out::default();
         for i in r {
             o.n += 1;
+            mc::watch::progress(|| case_line(&inputs[i]));
             match validate(&inputs[i]) {
                 Verdict::Ok { bytes, labels_resolved } => {
                     o.ok += 1;
